@@ -116,6 +116,9 @@ type Exec struct {
 	lawMode  bool
 	curLoop  *loopData
 	unfold   int
+	initMode bool
+	initHavoc map[*ssa.Global]bool
+	nextInit int
 	unfolded map[string]bool
 	splits   []*Term
 	caseMask int
@@ -477,6 +480,10 @@ func (x *Exec) normPtrs(st *State, t types.Type, c []*Term) []*Term {
 }
 
 func (x *Exec) newBlk() int {
+	if x.initMode {
+		x.nextInit++
+		return (globalBlkBase + 0x1000 + x.nextInit) << 4
+	}
 	if x.spec > 0 {
 		x.nextTmp++
 		if x.nextTmp >= 0x3fff {
